@@ -58,7 +58,7 @@ add("C16", "proof",
 
 add("C09", "proof",
     "Recovery is proved on lemma functions (real Go, build tag verif, xmss/zz_lemmas_verif.go and dilithium/zz_lemmas_verif.go) that compose the real constructors and exporters: NewXMSSFromExtendedSeed(k.GetExtendedSeed()) yields equal sk, seed, descriptor fields, height, hash function and traversal state as k for every seed, even height 4..30 and hash id; a key from NewXMSSFromHeight / dilithium.New is regenerated by the seed it stores; NewDilithiumFromSeed(d.GetSeed()) and NewDilithiumFromHexSeed(d.GetHexSeed()[2:]) give equal pk, sk, seed. The arguments reaching initializeTree / cryptoSignKeypair are proved equal (descriptor codec arithmetic, 51-byte layout, hex encode/decode); equal arguments give equal keys because those functions carry `pure` contracts whose determinism is discharged by the effects back end. GetPK's layout contract makes PK and address functions of the compared fields.",
-    "Not covered yet: the mnemonic legs (they need the C10 codec contracts). Assumed: encoding/hex contracts (T5), crypto/rand.Read fills the buffer with arbitrary bytes, hashes deterministic (T4). 'Same signatures' follows from equal key state plus determinism of signing (C08/C07).",
+    "Mnemonic legs: verifLemmaRecoverFromMnemonic (XMSS and Dilithium) rebuild the key from MnemonicTo(Extended)SeedBin((Extended)SeedBinToMnemonic(seed)) — GetMnemonic and NewDilithiumFromMnemonic are one-line wrappers of exactly these calls and are verified inline — through exported lemma functions misc.VerifLemma(Extended)SeedRoundTrip whose byte-wise conclusion dec(enc(b))[q] = b[q] is a discharged obligation. Assumed: encoding/hex contracts (T5), crypto/rand.Read fills the buffer with arbitrary bytes, hashes deterministic (T4). 'Same signatures' follows from equal key state plus determinism of signing (C08/C07).",
     "contract-based deductive verification of product-program lemma functions; determinism (purity) of key generation by go/ssa effects analysis",
     "DESIGN.md section 4 C09")
 
